@@ -46,6 +46,10 @@ def forest_canon(messages):
     return tuple(sorted((canon(t.root()) for t in Parser.parse_stream(messages)), key=repr)), all(t.is_complete() for t in Parser.parse_stream(messages))
 
 
+class _Escape(Exception):
+    pass
+
+
 class _YieldingFile(object):
     """Binary file object; every write() is atomic, a thread switch may follow it."""
 
@@ -198,12 +202,17 @@ def body_E1(ctx):
                         stacks[i].items.append(a)
                         inner()
                         stacks[i].items.pop()
+                        if sh.get("escape"):
+                            raise _Escape("w%d" % i)  # the handed-over work fails: the exception leaves the wrapper
 
                     f = preserve_context(wrapped)
 
                     def runner(f=f, i=i):
                         ctx.check(current_action() is None, "new thread w%d starts with current action %r", i, current_action())
-                        f()
+                        try:
+                            f()
+                        except _Escape:
+                            pass
                         ctx.check(current_action() is None, "thread w%d ends with current action %r", i, current_action())
 
                     t = SchedThread(sched, target=runner, name="w%d" % i)
@@ -221,6 +230,18 @@ def body_E1(ctx):
             for t in threads:
                 t.join()
                 main_stack.check("after join", sched)
+            # threads started one after another once the workers are gone (the OS hands their
+            # identifiers out again): each starts with no current action and logs its own tree
+            for k in range(int(sh.get("probes", 0))):
+                def probe(k=k):
+                    ctx.check(current_action() is None, "a thread started after the workers had ended begins with current action %r", current_action() and current_action()._identification)
+                    log_message("probe:m", who="probe%d" % k)
+                    ctx.check(current_action() is None, "probe thread ends with a current action")
+
+                t = SchedThread(sched, target=probe, name="probe%d" % k)
+                t.start()
+                t.join()
+                main_stack.check("after probe thread", sched)
             main_stack.items.pop()
         main_stack.check("at end", sched)
 
@@ -274,7 +295,7 @@ def body_E1(ctx):
         ctx.check(pw == who, "an item logged by %s landed inside an action of %s: %r under %r (%s)", who, pw, {k: m[k] for k in ("task_level", "who")}, {k: parent[k] for k in ("action_type", "task_level", "who")}, sched.render())
     fc, complete = forest_canon(received)
     ctx.check(complete, "not every task is complete")
-    expected = expected_forest(kinds, via)
+    expected = expected_forest(kinds, via, "failed" if sh.get("escape") else "succeeded", int(sh.get("probes", 0)))
     ctx.check(fc == expected, "parsed forest %r differs from the schedule-independent expectation %r (%s)", fc, expected, sched.render())
     if sched.switches >= 3:
         ctx.nontrivial((json.dumps(sh, sort_keys=True), tuple(ctx.trace)))
@@ -293,8 +314,8 @@ def _prog_canon(kind, who):
     return [("a", "w:f", "failed", (("m", "w:m", who),)), ("m", "w:after", who)]
 
 
-def expected_forest(kinds, via):
-    tasks = []
+def expected_forest(kinds, via, remote_status="succeeded", probes=0):
+    tasks = [("m", "probe:m", "probe%d" % k) for k in range(probes)]
     main_children = [("m", "main:m", "main"), ("a", "main:B", "succeeded", ())]
     for i, (k, v) in enumerate(zip(kinds, via)):
         who = "w%d" % i
@@ -302,7 +323,7 @@ def expected_forest(kinds, via):
         if k == 3:
             main_children.append(("a", "main:job", "succeeded", (("m", "w:m", who),)))
         if v:
-            main_children.append(("a", "eliot:remote_task", "succeeded", tuple(sorted(items, key=repr))))
+            main_children.append(("a", "eliot:remote_task", remote_status, tuple(sorted(items, key=repr))))
         else:
             tasks.extend(items)
     tasks.append(("a", "main:A", "succeeded", tuple(sorted(main_children, key=repr))))
@@ -423,7 +444,7 @@ def E2() -> bool:
 
 
 def _e1_shards(tier):
-    cfgs = [{"workers": 2, "P": 1, "preserve": 1}] if tier == "quick" else [{"workers": 2, "P": 1, "preserve": 1}, {"workers": 2, "P": 2, "preserve": 0}, {"workers": 3, "P": 1, "preserve": 0}]
+    cfgs = [{"workers": 2, "P": 1, "preserve": 1}, {"workers": 2, "P": 0, "preserve": 1, "escape": 1, "probes": 2, "handover": 0}] if tier == "quick" else [{"workers": 2, "P": 1, "preserve": 1}, {"workers": 2, "P": 2, "preserve": 0}, {"workers": 3, "P": 1, "preserve": 0}, {"workers": 2, "P": 1, "preserve": 1, "escape": 1, "probes": 2, "handover": 0}]
     out = []
     for base in cfgs:
         out += [dict(base, prefix=p) for p in enumerate_prefixes(body_E1, "X", {}, base, base["workers"] * (2 if base["preserve"] else 1))]
@@ -441,7 +462,7 @@ OBLIGATIONS = [
         shards=_e1_shards,
         twin=[{"workers": 2, "P": 1, "preserve": 1, "twin_label": "interleaved"}],
         timeout={"quick": 100, "thorough": 1500},
-        bounds={"quick": "main + 2 worker threads, 4 worker programs each (one enters an action the main thread created and handed over), plain or preserve_context, <= 1 preemption (plus all forced switches) at call granularity", "thorough": "additionally 2 plain workers with <= 2 preemptions and 3 plain workers with <= 1"},
+        bounds={"quick": "main + 2 worker threads, 4 worker programs each (one enters an action the main thread created and handed over), plain or preserve_context, <= 1 preemption (plus all forced switches) at call granularity; the same workers with the handed-over callable raising, followed by 2 threads started one after another once the workers have ended (forced switches only)", "thorough": "additionally 2 plain workers with <= 2 preemptions and 3 plain workers with <= 1; the raising hand-over with <= 1 preemption"},
     ),
     Ob(
         "E2",
